@@ -14,6 +14,22 @@ package route
 
 //@ define isTree(t Tree) bool = dyn(t) == type(*baseTree) || isTreeChild(t)
 
+// C01: lists are ordered by match-style rank, and among equal ranks by registration (allocation) order;
+// a match-all, if any, is unique and last.
+//@ ghost field baseTree.snapLeaves map[int]Leaf   // the leaf list before an insertion
+//@ ghost field baseTree.snapTrees map[int]Tree
+//@ define sortedTrees(n *baseTree) bool = forall i int, j int {n.subtrees[i], n.subtrees[j]} :: 0 <= i && i < j && j < len(n.subtrees) ==>
+//@     style(n.subtrees[i]) <= style(n.subtrees[j]) && (style(n.subtrees[i]) == style(n.subtrees[j]) ==> style(n.subtrees[i]) != 4 && age(n.subtrees[i]) < age(n.subtrees[j]))
+//@ define sortedLeaves(n *baseTree) bool = forall i int, j int {n.leaves[i], n.leaves[j]} :: 0 <= i && i < j && j < len(n.leaves) ==>
+//@     leafStyle(n.leaves[i]) <= leafStyle(n.leaves[j]) && (leafStyle(n.leaves[i]) == leafStyle(n.leaves[j]) ==> leafStyle(n.leaves[i]) != 4 && age(n.leaves[i]) < age(n.leaves[j]))
+// backing arrays of the lists of different nodes are never shared
+//@ define sortedLeafSlice(s []Leaf) bool = forall i int, j int {s[i], s[j]} :: 0 <= i && i < j && j < len(s) ==>
+//@     leafStyle(s[i]) <= leafStyle(s[j]) && (leafStyle(s[i]) == leafStyle(s[j]) ==> leafStyle(s[i]) != 4 && age(s[i]) < age(s[j]))
+//@ define ownLists() bool = forall n *baseTree, m *baseTree {n.leaves, m.leaves} :: live(n) && live(m) && n != m ==>
+//@     (cap(n.subtrees) == 0 || cap(m.subtrees) == 0 || ref(n.subtrees) != ref(m.subtrees)) &&
+//@     (cap(n.leaves) == 0 || cap(m.leaves) == 0 || ref(n.leaves) != ref(m.leaves))
+//@ define ordWF() bool = ownLists() && (forall n *baseTree :: live(n) ==> sortedTrees(n) && sortedLeaves(n))
+
 //@ define nodeOK(n *baseTree) bool =
 //@     (forall k int :: 0 <= k && k < len(n.subtrees) ==> isTreeChild(n.subtrees[k]) && nodeOf(n.subtrees[k]).segment != nil) &&
 //@     (forall k int :: 0 <= k && k < len(n.leaves) ==> n.leaves[k] != nil && live(leafBase(n.leaves[k]))) &&
@@ -294,8 +310,17 @@ package route
 
 //@ func addLeaf
 //@   props C08 C01
+//@   loop 1 invariant[C01] leaves == nodeOf(t).leaves && leaf != nil && (forall k int :: 0 <= k && k < i ==> leafStyle(leaves[k]) <= leafStyle(leaf))
+//@   loop 1 invariant[C01] forall k int :: 0 <= k && k < len(leaves) ==> nodeOf(t).snapLeaves[k] == leaves[k]
+//@   ghost after getLeaves#1: nodeOf(t).snapLeaves = seqof(nodeOf(t).leaves)
+// stable insertion: the new list is old[:i] ++ [leaf] ++ old[i:], every entry before i has a rank <= the new leaf's,
+// the entry at i (if any) a strictly larger one: rank order first, registration order within a rank
+//@   assert[C01] before setLeaves#0: len(leaves) == len(nodeOf(t).leaves) + 1 && leaves[i] == leaf &&
+//@       (forall k int :: 0 <= k && k < i ==> leaves[k] == nodeOf(t).snapLeaves[k]) && (forall k int :: i < k && k < len(leaves) ==> leaves[k] == nodeOf(t).snapLeaves[k - 1])
+//@   assert[C01] before setLeaves#0: (forall k int :: 0 <= k && k < i ==> leafStyle(nodeOf(t).snapLeaves[k]) <= leafStyle(leaf)) &&
+//@       (i < len(nodeOf(t).leaves) ==> leafStyle(leaf) < leafStyle(nodeOf(t).snapLeaves[i]))
 //@   requires treeWF() && isTree(t) && routeWF(r) && optLast(r) && s != nil && h != nil
-//@   modifies baseTree.leaves, elems(type([]Leaf)), Segment.str, Segment.strOnce.fired, Route.str, Route.strOnce.fired
+//@   modifies baseTree.leaves, baseTree.snapLeaves, elems(type([]Leaf)), Segment.str, Segment.strOnce.fired, Route.str, Route.strOnce.fired
 //@   ensures treeWF()
 //@   ensures result1 == nil ==> result0 != nil && leafBase(result0).headerMatcher == nil && leafBase(result0).segment == s && leafBase(result0).route == r
 //@   ensures result1 != nil ==> result0 == nil
@@ -304,9 +329,16 @@ package route
 
 //@ func addSubtree
 //@   props C08 C01
+//@   loop 1 invariant[C01] subtrees == nodeOf(t).subtrees && isTreeChild(subtree) && (forall k int :: 0 <= k && k < i ==> style(subtrees[k]) <= style(subtree))
+//@   loop 1 invariant[C01] forall k int :: 0 <= k && k < len(subtrees) ==> nodeOf(t).snapTrees[k] == subtrees[k]
+//@   ghost after getSubtrees#1: nodeOf(t).snapTrees = seqof(nodeOf(t).subtrees)
+//@   assert[C01] before setSubtrees#0: len(subtrees) == len(nodeOf(t).subtrees) + 1 && subtrees[i] == subtree &&
+//@       (forall k int :: 0 <= k && k < i ==> subtrees[k] == nodeOf(t).snapTrees[k]) && (forall k int :: i < k && k < len(subtrees) ==> subtrees[k] == nodeOf(t).snapTrees[k - 1])
+//@   assert[C01] before setSubtrees#0: (forall k int :: 0 <= k && k < i ==> style(nodeOf(t).snapTrees[k]) <= style(subtree)) &&
+//@       (i < len(nodeOf(t).subtrees) ==> style(subtree) < style(nodeOf(t).snapTrees[i]))
 //@   requires treeWF() && isTree(t) && routeWF(r) && h != nil && 0 <= next && next + 1 < len(r.Segments)
 //@   requires forall k int :: 0 <= k && k <= next ==> !r.Segments[k].Optional
-//@   modifies baseTree.leaves, baseTree.subtrees, elems(type([]Leaf)), elems(type([]Tree)), Segment.str, Segment.strOnce.fired, Route.str, Route.strOnce.fired
+//@   modifies baseTree.leaves, baseTree.subtrees, baseTree.snapLeaves, baseTree.snapTrees, elems(type([]Leaf)), elems(type([]Tree)), Segment.str, Segment.strOnce.fired, Route.str, Route.strOnce.fired
 //@   ensures treeWF()
 //@   ensures result1 == nil ==> result0 != nil && leafBase(result0).headerMatcher == nil && leafBase(result0).segment == r.Segments[len(r.Segments) - 1] && leafBase(result0).route == r
 //@   ensures result1 != nil ==> result0 == nil
@@ -318,7 +350,7 @@ package route
 //@   ensures len(r.Segments) > next + 1 && r.Segments[next].Optional ==> result1 != nil
 //@   requires treeWF() && isTree(t) && routeWF(r) && h != nil && 0 <= next && next < len(r.Segments)
 //@   requires forall k int :: 0 <= k && k < next ==> !r.Segments[k].Optional
-//@   modifies baseTree.leaves, baseTree.subtrees, elems(type([]Leaf)), elems(type([]Tree)), Segment.str, Segment.strOnce.fired, Route.str, Route.strOnce.fired
+//@   modifies baseTree.leaves, baseTree.subtrees, baseTree.snapLeaves, baseTree.snapTrees, elems(type([]Leaf)), elems(type([]Tree)), Segment.str, Segment.strOnce.fired, Route.str, Route.strOnce.fired
 //@   ensures treeWF()
 //@   ensures result1 == nil ==> result0 != nil && leafBase(result0).headerMatcher == nil && leafBase(result0).segment == r.Segments[len(r.Segments) - 1] && leafBase(result0).route == r
 //@   ensures result1 != nil ==> result0 == nil
@@ -326,7 +358,7 @@ package route
 //@ func AddRoute
 //@   props C08 C01
 //@   requires treeWF() && isTree(t) && h != nil && (r == nil || len(r.Segments) == 0 || routeWF(r))
-//@   modifies baseTree.leaves, baseTree.subtrees, elems(type([]Leaf)), elems(type([]Tree)), Segment.str, Segment.strOnce.fired, Route.str, Route.strOnce.fired
+//@   modifies baseTree.leaves, baseTree.subtrees, baseTree.snapLeaves, baseTree.snapTrees, elems(type([]Leaf)), elems(type([]Tree)), Segment.str, Segment.strOnce.fired, Route.str, Route.strOnce.fired
 //@   ensures treeWF()
 //@   ensures result1 == nil ==> result0 != nil && r != nil && len(r.Segments) >= 1 && leafBase(result0).headerMatcher == nil && leafBase(result0).segment == r.Segments[len(r.Segments) - 1] && leafBase(result0).route == r
 //@   ensures result1 != nil ==> result0 == nil
